@@ -85,6 +85,13 @@ def _chain(e):
 
 
 def refs(expr):
+    cached = getattr(expr, "_sa_refs", None)
+    if cached is None:
+        cached = expr._sa_refs = frozenset(_refs(expr))
+    return cached
+
+
+def _refs(expr):
     """All dotted paths an expression reads, with all their prefixes."""
     out = set()
     for n in ast.walk(expr):
@@ -103,6 +110,13 @@ def refs(expr):
 
 
 def assigned_names(node):
+    cached = getattr(node, "_sa_assigned", None)
+    if cached is None:
+        cached = node._sa_assigned = frozenset(_assigned_names(node))
+    return cached
+
+
+def _assigned_names(node):
     """Paths (names or dotted attribute chains) that are (re)bound or mutated
     anywhere inside `node` (deep, but not inside nested function definitions).
     A store `a.b[i] = v` or `a.b.append(v)` yields 'a.b'; `a.b = v` yields 'a.b';
@@ -186,8 +200,11 @@ class Ctx:
 
 
 def walk_function(fnode):
-    """Yield Ctx for every statement of the function (not nested defs)."""
-    yield from _walk(fnode.body, [], (), ())
+    """Ctx for every statement of the function (not nested defs); memoised on the node (rules never mutate the tree)."""
+    cached = getattr(fnode, "_sa_ctxs", None)
+    if cached is None:
+        cached = fnode._sa_ctxs = tuple(_walk(fnode.body, [], (), ()))
+    return cached
 
 
 def _drop(facts, names):
